@@ -104,8 +104,12 @@ impl<T: Write + Seek> ShapeWriter<T> {
                     max: PointZ::new(f64::MIN, f64::MIN, f64::MIN, f64::MIN),
                     min: PointZ::new(f64::MAX, f64::MAX, f64::MAX, f64::MAX),
                 };
+                // An earlier `finalize` (with nothing written yet) already put a header
+                // at the start of the destinations: reserve the header there, not after it.
+                self.shp_dest.seek(SeekFrom::Start(0))?;
                 self.header.write_to(&mut self.shp_dest)?;
                 if let Some(shx_dest) = &mut self.shx_dest {
+                    shx_dest.seek(SeekFrom::Start(0))?;
                     self.header.write_to(shx_dest)?;
                 }
             }
